@@ -242,6 +242,8 @@ def run(ctx):
     cov["l2_divergences"] = l2
     cov["samples"] = samples or [{"note": "none"}]
     ctx.assumptions += ["the interpreter is a search oracle (Python transcription of Spec/Field.lean), not part of the proof",
+                        "an intermediate or output signal that no statement has assigned on the path taken reads as 0 (the witness memory); a signal "
+                        "assigned twice on one path ends the run (invalid execution)",
                         "literals >= p are read modulo p by the oracle (outside the property's range); unknown function calls, inline arrays and component "
                         "outputs abort a run"]
 
